@@ -172,6 +172,16 @@ def decide(entry, s, found):
     return amb, seedv, assumptions
 
 
+_CAND = {}
+
+
+def candidate_replay(key):
+    if key not in _CAND:
+        res = replay_designers([key])
+        _CAND[key] = res.get(key) if 'error' not in res else res
+    return _CAND[key]
+
+
 def replay_designers(which, timeout=600):
     """Run the two-process replay; -> dict name -> result dict, or {'error': text}."""
     cmd = ['/venv/bin/python', os.path.join(report.VERIF, 'replay', 'c14_twoproc.py'), '--designers', ','.join(which)]
@@ -258,6 +268,19 @@ def main(tier):
             len(s['closure']), len(s['rng_ctors']), len(s['rng_uses']), per_entry[name]['seed_forwarding_sites'], len(s['excluded']), len(s['unresolved']))
         # ---- obligation 1
         oname = 'C14.%s.no_ambient_nondeterminism' % name
+        cands = s.get('candidates', [])
+        if cands and not amb:
+            # candidate sources (hash() of a value whose type the frame analysis does not track): decided by the two-process
+            # replay of this entry (process B runs under a different PYTHONHASHSEED); no divergence / no replay -> assumption
+            key = entry.get('replay') or entry.get('replay_alias')
+            r = candidate_replay(key) if key else None
+            diverged = bool(r) and not r.get('error') and (r.get('same_seed_equal') is False or r.get('different_seed_differs') is False)
+            if diverged:
+                amb = cands
+            else:
+                for c in cands:
+                    chk.assume('%s at %s: assumed process-independent (%s)' % (
+                        c['what'], c['where'], 'two-process replay of %s did not diverge' % key if r and not r.get('error') else 'no native replay available'))
         if amb:
             model = '\n'.join('%s: %s [%s]' % (a['kind'], a['what'], a['where']) for a in amb)
             chk.obligation(oname, fn_label, 'frame', report.VIOLATED, dt, detail=detail_common + '; ambient sources reachable with a non-None seed: ' + model[:1500],
